@@ -226,6 +226,32 @@ def cases(rng, which, count):
                 sg = esc(fasta(gr))
                 for f in ("--from-start", "--from-end", "--openning", "--unique"):
                     yield Case("cli_lib", [sg, "stats", "gaps", f], True, "cli-stats-gaps" + f)
+            elif w == "charstats":
+                # `stats char`: the table of all characters, per sequence, per site; `--only` one character
+                pool = rng.choice(["ACGT", "ACGTacgt-", "ACGTNn-", "AC-", "ACGTRYKM*.?", "ARNDCQEGHILKMFPSTWYV-", "ARNDarndXx*"])
+                cr = [(nm, "".join(rng.choice(pool) for _ in range(L))) for nm, _ in rows]
+                sc = esc(fasta(cr))
+                present = sorted(set("".join(sq for _, sq in cr)))
+                for mode in ([], ["--per-sequences"], ["--per-sites"], ["--per-sites", "--per-sequences"]):
+                    fl = list(mode)
+                    k = rng.random()
+                    if k < 0.4:
+                        fl += ["--only", rng.choice(present)]
+                    elif k < 0.6 and "--per-sites" not in mode:
+                        # a character that does not occur (as it is written): a line / column of zeros.  Not with
+                        # --per-sites: the binary prints `site000|100|…` there (no header line, no separator)
+                        fl += ["--only", rng.choice([c for c in "ACGTNXacgtnx-*Z" if c not in present])]
+                    elif k < 0.65:
+                        fl += ["--only", "*"]
+                    yield Case("cli_lib", [sc, "stats", "char"] + fl, True, "cli-stats-char" + "".join(mode))
+            elif w == "alleles":
+                cols = ["".join(rng.choice(c) for _ in range(n)) for c in (rng.choice(["A", "AC", "ACGT-", "-", "*", "AC-", "N.", "ac", "-.*", "ACGTacgtRY"]) for _ in range(L))]
+                er = [("s%d" % i, "".join(c[i] for c in cols)) for i in range(n)]
+                yield Case("cli_lib", [esc(fasta(er)), "stats", "alleles"], True, "cli-stats-alleles")
+            elif w == "alphabet":
+                pool = rng.choice(["ACGT-", "ACGTacgtNRYKMSWBDHV-", "ARNDCQEGHILKMFPSTWYV-", "arndcqeghilkmfpstwyvX*-", "ACGT1", "ARNDJ-", "ACGU", "EFILPQ", "-", "ACGTO", "N-", "X-", "ACGTE"])
+                ar = [(nm, "".join(rng.choice(pool) for _ in range(L))) for nm, _ in rows]
+                yield Case("cli_lib", [esc(fasta(ar)), "stats", "alphabet"], True, "cli-stats-alphabet")
             elif w == "mutstats":
                 base = "".join(rng.choice("ACGT") for _ in range(L))
                 mr = [(nm, "".join(rng.choice("ACGTNRY-") if rng.random() < 0.25 else b for b in base)) for nm, _ in rows]
